@@ -789,6 +789,17 @@ func (d *DataRow) MatchFilter(filter *Filter, negate bool) bool {
 
 	// if this is a optional column and we do not meet the requirements, match against an empty default column
 	if filter.columnOptional != NoFlags && !d.dataStore.peer.HasFlag(filter.columnOptional) {
+		switch filter.column.DataType {
+		case IntCol, Int64Col, FloatCol:
+			// numbers of a missing column read as the empty value (-1), exactly as they are sent to the client
+			match := matchEmptyFilter(filter.operator)
+			if !filter.isEmpty {
+				match = filter.MatchFloat(interface2float64(filter.column.GetEmptyValue()))
+			}
+
+			return match != negate
+		default:
+		}
 		// duplicate filter, but use the empty column
 		dupFilter := &Filter{
 			column:      d.dataStore.table.GetEmptyColumn(),
